@@ -16,7 +16,8 @@ RULES = {
              "Some(_) (offset-addressed reads trim by their own hint) -, the header not fitting into the block's used bytes, an invalid header length, and a failed header decode. "
              "A budget class for which the widening is skipped plans a range that ends inside the first entry, which the parser then drops: the entry is skipped or never delivered",
     "C03.4": "a budget stop ends the batch: from the edge on which the parser gives up an entry because the byte budget is exhausted (`next_total > max_bytes` with the vector not "
-             "empty) no further push into the returned vector is reachable (boolean flags assigned on the way are taken at their value). Otherwise the entries of a later planned "
+             "empty), and from the edges on which the planned range turns out to end in front of or inside an entry (`offset + needed > buffer.len()`: the budget cut the range "
+             "there), no further push into the returned vector is reachable (boolean flags assigned on the way are taken at their value). Otherwise the entries of a later planned "
              "range - the next block, the tail - are delivered and the cursor is committed past the block in which the parser stopped, and the entries left in that block are never "
              "delivered",
 }
@@ -270,13 +271,37 @@ def check_budget_stop_ends_batch(ctx, facts, fn_name="batch_read_for_topic", rid
     if not stops or not pushes:
         ctx.anchor_missing(rid, "budget test / push in " + F)
         return
+    # range-cut stops: the planned range ends in front of / inside an entry (`offset + needed > buffer.len()`),
+    # where `offset` is the local the parse loop runs on (`offset < buffer.len()`)
+    from .core.symexpr import expr, show, strip_refs
+    loop_offs = set()
+    for T in tests:
+        if T.kind == "cmp" and T.op == "Lt":
+            eb = strip_refs(expr(fn, T.b))
+            la = op_local(fn.resolve_copy(T.a))
+            if la is not None and eb[0] == "len" and fn.local_ty(la) == "usize" and any(fn.dominates(T.bb, p.bb) for p in pushes):
+                loop_offs.add((la, show(eb, 6)))
+    cuts = []
+    for T in tests:
+        if T.kind == "cmp" and T.op in ("Gt", "Ge"):
+            ea, eb = strip_refs(expr(fn, T.a)), strip_refs(expr(fn, T.b))
+            if ea[0] == "Add" and eb[0] == "len":
+                for lo, blen in loop_offs:
+                    nm = fn.local_name(lo)
+                    if show(eb, 6) == blen and nm and nm in (show(strip_refs(ea[1]), 4), show(strip_refs(ea[2]), 4)):
+                        cuts.append((T, [T.true_edge]))
     n = 0
-    for T, edges in stops:
+    for T, edges in stops + cuts:
+        is_cut = (T, edges) in cuts
         for e in edges:
             n += 1
             reach = fn.reachable_with_flags(e[1])
             hit = [p for p in pushes if p.bb in reach]
-            if hit:
+            if hit and is_cut:
+                ctx.violate(rid, F, "push-reachable-after-range-cut", fn.relfile, fn.term(e[0]).get("line"),
+                            "the planned range ends in front of or inside an entry (the budget cut it there), yet a later planned range is still parsed and its entries are pushed "
+                            "(line %s): the cursor is committed past the block whose remaining entries were not delivered" % hit[0].line)
+            elif hit:
                 ctx.violate(rid, F, "push-reachable-after-budget-stop", fn.relfile, fn.term(e[0]).get("line"),
                             "after the parser has stopped at an entry that does not fit the byte budget, a later planned range is still parsed and its entries are pushed (line %s): "
                             "the cursor is then committed past the block that still holds the entry that did not fit, and that entry (and everything behind it in its block) is "
@@ -284,6 +309,7 @@ def check_budget_stop_ends_batch(ctx, facts, fn_name="batch_read_for_topic", rid
             else:
                 ctx.ok(rid, F, "no push is reachable after the budget stop", fn.relfile, fn.term(e[0]).get("line"))
     ctx.floor(rid, "budget stop edges", n, 1)
+    ctx.floor(rid, "range-cut stop edges", len(cuts), 2)
 
 
 def _value_only_under(b, local, value, edges, so_keys, depth=0, seen=None):
@@ -387,6 +413,22 @@ def check_first_entry_widening(ctx, facts, fn_name="batch_read_for_topic", rid="
         ctx.ok(rid, F, "the widening target is computed from the peeked header's read_size", b.relfile, wsite.line)
     else:
         ctx.violate(rid, F, "widening-not-from-header", b.relfile, wsite.line, "the value the range is widened to does not derive from the header at the cursor")
+    # the header must be the one at the position being planned in THIS iteration: the storage read that fills the
+    # peeked buffer lies in the region of the `planned == 0` branch (a peek hoisted out of the loop looks at the
+    # block the cursor started in, not at the block the planner has moved on to)
+    rsrc, _, _ = origins(b, {"k": "copy", "place": {"l": req, "p": []}}, follow_all_calls=True)
+    peeks = [o.site for o in rsrc if o.kind == "call" and o.site is not None and re.search(r"archived_root$|check_archived_root$|::deserialize$", strip_generics(o.what))]
+    if not peeks:
+        ctx.violate(rid, F, "widening-without-header-decode", b.relfile, wsite.line, "cannot find the header decode the range is widened from")
+    else:
+        outside = [c_ for c_ in peeks if not b.edge_guards(T0.true_edge, c_.bb)]
+        if outside:
+            ctx.violate(rid, F, "header-peeked-outside-the-planning-iteration", b.relfile, outside[0].line,
+                        "the header whose size the first planned range is widened to is decoded outside the planning iteration that uses it: when the planner steps to another block "
+                        "(cursor at the end of a sealed block) the range planned there is not widened to that block's first entry, is cut inside it and nothing - or the wrong "
+                        "entries - are delivered")
+        else:
+            ctx.ok(rid, F, "the peeked header is decoded in the iteration that plans the range (%d decode site(s))" % len(peeks), b.relfile, peeks[0].line)
     # bypass edges within one iteration
     hdr = Tloop.bb
     start = T0.true_edge[1]
